@@ -85,6 +85,11 @@ func (c04) Gen(r *sim.Rand, c *sim.Case, tier string) {
 		}
 		edits = append(edits, sim.Op{K: "save", I: []int{r.Intn(2)}})
 	}
+	if r.Chance(0.35) {
+		// the producer's file is opened a second time in the same process, after the first document was edited and saved, and saved
+		// unchanged: nothing the first document did may show
+		edits = append(edits, sim.Op{K: "foreign.again", D: 1, I: []int{0}}, sim.Op{K: "save", D: 1, I: []int{r.Intn(2)}})
+	}
 	c.Tasks = [][]sim.Op{append(ops, edits...)}
 	c.Order = orderPolicy(r)
 	c.OrderSeed = r.Uint64()
